@@ -251,6 +251,78 @@ def random_models(rng, n, syms, depth, leaf_kinds):
 
 
 
+
+# ----------------------------------------------------------------------------- open content (XSD 1.1)
+def oc_xsd(m, mode, wc):
+    """The content model m below <xs:openContent mode=...> with the wildcard wc."""
+    xsd = cm.model_xsd(m)
+    oc = (f'<xs:openContent mode="{mode}"><xs:any namespace="{cm.WILD[wc]}" processContents="lax"/>'
+          f'</xs:openContent>')
+    return xsd.replace("<xs:complexType>", "<xs:complexType>" + oc, 1)
+
+
+def judge_oc(job):
+    m, mode, wc, recs = job
+    out = {"cases": 0, "bad": [], "refused": 0}
+    schema, err = cm.build("1.1", oc_xsd(m, mode, wc))
+    if schema is None:
+        out["refused"] = 1
+        return out
+    for r in recs:
+        w = r["w"]
+        out["cases"] += 1
+        xml = cm.word_xml(w)
+        try:
+            got = schema.is_valid(xml)
+        except Exception as e:       # noqa: BLE001
+            out["bad"].append((w, r["acc"], f"raised {type(e).__name__}: {e}"[:200]))
+            continue
+        if got != r["acc"]:
+            out["bad"].append((w, r["acc"], f"is_valid={got}"))
+        elif not got:
+            errs = list(schema.iter_errors(xml))
+            if not any(getattr(e, "elem", None) is not None and e.elem.tag == "{urn:T}root" for e in errs):
+                out["bad"].append((w, r["acc"], "rejected without an error attached to the parent"))
+    return out
+
+
+def oc_phase(ctx: Ctx, witnesses, collect):
+    syms = ["a", "b", "c", "o"]
+    maxlen = 4 if ctx.tier == "thorough" else 3
+    consts = {"Ver": '"1.1"', "MaxLen": maxlen, "Syms": "{" + ", ".join(f'"{x}"' for x in syms) + "}"}
+    files = {"MC_OC.tla": '---- MODULE MC_OC ----\nEXTENDS ContentModel\nMCModels == OCFamily("OCQ")\n====\n'}
+    cfg = (VERIF / "spec" / "ContentModel_oc.cfg").read_text() + "\nCONSTANT ModelSet <- MCModels\n"
+    r = ctx.tlc("MC_OC", cfg_text=cfg, constants=consts, files=files, tag="opencontent", workers=8)
+    # determinism of the bases (the open content wildcard takes no part in UPA)
+    cls, _ = tlc_universe(ctx, "1.1", "OCQ", ["a", "b"], 1, "oc-det", workers=4)
+    by = collections.defaultdict(list)
+    for rec in r.json_records():
+        by[(cm.mkey(rec["m"]), rec["mode"], rec["wc"])].append(rec)
+    jobs = [(json.loads(k), mode, wc, recs) for (k, mode, wc), recs in sorted(by.items()) if not cls[k]["upa"]]
+    st = {"types": len(jobs), "cases": 0, "refused": 0, "outside_domain": len(by) - len(jobs),
+          "words_with_open_content_elements": 0}
+    for (m, mode, wc, recs), res in zip(jobs, ctx.pmap(judge_oc, jobs)):
+        st["cases"] += res["cases"]
+        st["refused"] += res["refused"]
+        st["words_with_open_content_elements"] += sum(1 for x in recs if x["acc"] and not x["plain"])
+        for w, want, detail in res["bad"]:
+            k = f"1.1|{mode}|{wc}|{cm.model_str(m)}|{''.join(w)}|{'valid' if want else 'invalid'}"
+            if collect is not None:
+                collect.setdefault("opencontent", []).append(k)
+            finding = "F-C01-opencontent" if (k in witnesses.get("opencontent", ())
+                                              and not detail.startswith("raised")) else None
+            ctx.report({"scope": "opencontent", "ver": "1.1", "model": m, "model_str": cm.model_str(m), "mode": mode,
+                        "wildcard": wc, "word": w, "spec_valid": want, "observed": detail,
+                        "xsd": oc_xsd(m, mode, wc), "xml": cm.word_xml(w)},
+                       f"1.1 open content {mode}/{wc}: {cm.model_str(m)} on '{''.join(w)}': spec "
+                       f"{'valid' if want else 'invalid'}, {detail}", finding=finding)
+    some = [x for x in r.json_records() if x["acc"] and not x["plain"]][:2]
+    for x in some:
+        ctx.sample({"scope": "opencontent", "model": cm.model_str(x["m"]), "mode": x["mode"], "wildcard": x["wc"],
+                    "word": "".join(x["w"]), "spec_valid": x["acc"], "attribution": x["attr"]}, 18)
+    return st
+
+
 # ----------------------------------------------------------------------------- corpus traces (C)
 CORPUS = REPO / "tests" / "test_cases"
 
@@ -470,6 +542,10 @@ def run(ctx: Ctx, collect=None, only=None):
             ctx.sample({"scope": scope, "model": cm.model_str(m),
                         "words": ["".join(r["w"]) for r in recs[:6]],
                         "spec_valid": [r["acc"] for r in recs[:6]], "class": info}, 12)
+    if not only or "opencontent" in only:
+        st = oc_phase(ctx, witnesses, collect)
+        per_scope["opencontent"] = st
+        ncases += st["cases"]
     if not only or "corpus" in only:
         corpus_phase(ctx)
     ctx.impl_replays = ncases
